@@ -25,6 +25,7 @@ type dumper struct {
 	canon  bool // canonical form: no ids, positions reduced to validity
 	strip  bool // drop import declarations from File.Decls
 	noObj  bool // print every *ast.Object as nil (whether the parser resolved an identifier is not syntax)
+	noPos  bool // print every position as valid (only the shape of the tree is compared)
 }
 
 var (
@@ -71,7 +72,7 @@ func (d *dumper) val(v reflect.Value) {
 	t := v.Type()
 	if t == posType {
 		p := token.Pos(v.Int())
-		if !p.IsValid() {
+		if !p.IsValid() && !d.noPos {
 			d.w("(p)")
 		} else if d.canon {
 			d.w("(P)")
@@ -219,6 +220,13 @@ func canonFile(f *ast.File) string {
 
 func canonFileNoObj(f *ast.File) string {
 	d := &dumper{canon: true, strip: true, noObj: true}
+	d.val(reflect.ValueOf(f))
+	return `(pkg "` + esc(f.Name.Name) + `") ` + dumpImports(f.Imports, true) + " (tree " + d.sb.String() + ")"
+}
+
+// canonFileShape is canonFileNoObj without the validity of positions: the shape of the tree only.
+func canonFileShape(f *ast.File) string {
+	d := &dumper{canon: true, strip: true, noObj: true, noPos: true}
 	d.val(reflect.ValueOf(f))
 	return `(pkg "` + esc(f.Name.Name) + `") ` + dumpImports(f.Imports, true) + " (tree " + d.sb.String() + ")"
 }
